@@ -18,7 +18,7 @@ func init() {
 	core.Register(&core.Prop{
 		ID:    "C15",
 		Level: "exploration",
-		Rule: "EXHAUSTIVE arrays of length 0..4 over {1,2,3,nil}, {1.5,2.0,2.5,nil}, {\"a\",\"B\",\"c\",nil} and the mixed alphabet {1,2.5,\"a\",nil} (1364 arrays) x every array filter (sort, sort: key, reverse, uniq, compact, concat, first, last, size, join, map) x Go representations ([]any with spare capacity, typed slice, fixed array, range literal where the array is one, Drop of array, yaml.MapSlice); arrays of maps with present/absent/nil keys; PRNG arrays of length 5..8 and filter chains of length 2..4. Every case renders the filter result element by element AND the receiver again afterwards; the Go binding is compared with an identical fresh realisation after the render. Non-trivial = array length >= 2; distinct = distinct (filter, array, representation).",
+		Rule: "EXHAUSTIVE arrays of length 0..4 over {1,2,3,nil}, {1.5,2.0,2.5,nil}, {\"a\",\"B\",\"c\",nil} and the mixed alphabet {1,2.5,\"a\",nil} (1364 arrays) x every array filter (sort, sort: key, reverse, uniq, compact, concat, first, last, size, join, map) x Go representations ([]any with spare capacity, typed slice, fixed array, range literal where the array is one, Drop of array, yaml.MapSlice, generic slices whose nils are typed nil pointers); arrays of maps with present/absent/nil keys; PRNG arrays of length 5..8 and filter chains of length 2..4. Every case renders the filter result element by element AND the receiver again afterwards; the Go binding is compared with an identical fresh realisation after the render. Non-trivial = array length >= 2; distinct = distinct (filter, array, representation).",
 		Exhaustive: func(string) bool { return true },
 		Assumptions: []string{
 			"order among incomparable elements (mixed kinds, nil) under sort, and sort_natural, are not asserted beyond 'permutation, input unchanged, no panic'",
@@ -115,6 +115,22 @@ func c15Rep(kind int, a []gen.V, r *core.Rand) (any, bool) {
 		return gen.DropV{X: generic()}, true
 	case 4:
 		return &gen.DropP{X: generic()}, true
+	case 6: // generic slice whose nils are typed nil pointers (a nil pointer is nil; what filters do with pointers to values among their elements is not stated)
+		if nilFree {
+			return nil, false
+		}
+		out := make([]any, len(a), len(a)+2)
+		for i, e := range a {
+			switch {
+			case e.K == gen.KNil && r.Bool():
+				out[i] = (*int)(nil)
+			case e.K == gen.KNil:
+				out[i] = (*gen.DataStruct)(nil)
+			default:
+				out[i] = gen.Canon(e)
+			}
+		}
+		return out, true
 	case 5:
 		ms := yaml.MapSlice{}
 		for i, e := range a {
@@ -657,7 +673,7 @@ func runC15(c *core.Ctx) {
 			for j, s := range seq {
 				a[j] = alpha[s]
 			}
-			for kind := 0; kind < 6; kind++ {
+			for kind := 0; kind < 7; kind++ {
 				idx++
 				if !c.Mine(idx) {
 					continue
